@@ -376,27 +376,27 @@ Definition Impl (fu : nat) (q : query) : Prop :=
     (forall i, base + nv <= i < base + nv' -> K i) -> (forall i, kept sc ce i -> K i) -> (forall i, K0 i -> K i) ->
     let c := ctx_of sc (pc + length cq) st fk (base + nv) (base + nv') o ko K K0 ce n0 (ctr g) in
     stable c P -> P vs n g ->
-    G c (fst (den1 nt (call_of nt fu) q rho v)) (Tend c (snd (den1 nt (call_of nt fu) q rho v)) P) (N sc pc (SV v :: st) fk vs n o g).
+    G c (fst (den1 nt (call_of nt fu) q rho v)) (Tend fu c (snd (den1 nt (call_of nt fu) q rho v)) P) (N sc pc (SV v :: st) fk vs n o g).
 
 (* one output, no new fork *)
-Lemma G_single : forall c w s vs3 n3 o3 g3 (P : list sv -> nat -> gx -> Prop),
+Lemma G_single : forall lb c w s vs3 n3 o3 g3 (P : list sv -> nat -> gx -> Prop),
   steps s (N (g_sc c) (g_pc c) (SV w :: g_st c) (g_base c) vs3 n3 o3 g3) -> chg (g_own c) (vars_of s) vs3 ->
   cle (lbl_of s) (gx_of s) n3 g3 -> g_off c <= o3 <= length vs3 ->
   (forall vs2 n2 g2, keepK0 c vs3 vs2 -> cle n3 g3 n2 g2 -> P vs2 n2 g2) ->
-  G c [w] (Tend c None P) s.
+  G c [w] (Tend lb c None P) s.
 Proof.
-  intros c w s vs3 n3 o3 g3 P St Ch Le Ho HP. simpl. exists [], vs3, n3, o3, g3. simpl.
+  intros lb c w s vs3 n3 o3 g3 P St Ch Le Ho HP. simpl. exists [], vs3, n3, o3, g3. simpl.
   split; [auto|]. split; [auto|]. split; [auto|]. split; [auto|]. split; [reflexivity|]. intros vs2 n2 g2 K L.
   exists None, vs2, n2, g2. split; [constructor|]. split; [apply chg_refl|]. split; [apply cle_refl|]. split; [reflexivity|auto].
 Qed.
 
 (* no output: the enumeration ends *)
-Lemma G_end : forall c s e vs3 n3 g3 fin (P : list sv -> nat -> gx -> Prop),
+Lemma G_end : forall lb c s e vs3 n3 g3 fin (P : list sv -> nat -> gx -> Prop),
   steps s (B e (g_base c) vs3 n3 g3) -> chg (g_own c) (vars_of s) vs3 -> cle (lbl_of s) (gx_of s) n3 g3 ->
   encR (g_sc c) (g_ce c) vs3 fin e -> P vs3 n3 g3 ->
-  G c [] (Tend c fin P) s.
+  G c [] (Tend lb c fin P) s.
 Proof.
-  intros c s e vs3 n3 g3 fin P St Ch Le HE HP. simpl. exists s.
+  intros lb c s e vs3 n3 g3 fin P St Ch Le HE HP. simpl. exists s.
   split; [constructor|]. split; [apply chg_refl|]. split; [apply cle_refl|].
   apply Tend_of. exists e, vs3, n3, g3. auto.
 Qed.
